@@ -67,6 +67,10 @@ func suiteCLI(c *Ctx) error {
 		}
 		rsrc := p.Render(p.RenameMap(r.Fork(), false), nil, 1)
 		f1, _ := writeModule(c.Work, fmt.Sprintf("cli%d_ren", pi), "a.go", rsrc)
+		// a copy with a //line directive in front of a function (generated code, templates): positions lie,
+		// the function is still there
+		lsrc := strings.Replace(rsrc, "\nfunc Fn00(", "\n//line peers.tmpl:12\nfunc Fn00(", 1)
+		f2l, _ := writeModule(c.Work, fmt.Sprintf("cli%d_line", pi), "a.go", lsrc)
 		lib, err := diff.FingerprintSource(f0, src, ir.DefaultLiteralPolicy)
 		if err != nil {
 			return fmt.Errorf("program does not load: %v", err)
@@ -121,6 +125,20 @@ func suiteCLI(c *Ctx) error {
 				}
 				cases = append(cases, scanCase{db, true, 0, file, ""}, scanCase{db, true, 0.5, file, ""})
 			}
+			cases = append(cases, scanCase{db, false, 0.5, f2l, "line-directive"}, scanCase{db, true, 0, f2l, "line-directive"})
+		}
+		// a NEAR-TWIN signature: the signature of TwinB is replaced (in separate copies of both databases)
+		// by one with the same topology hash whose recorded entropy is off by a hair, so TwinB matches it
+		// with a confidence just below 1; at --threshold 1 and 0.995 (full and --exact) it must not be
+		// reported below the threshold that was asked for
+		npdb := filepath.Join(c.Work, fmt.Sprintf("cli%d_near.db", pi))
+		njdb := filepath.Join(c.Work, fmt.Sprintf("cli%d_near.json", pi))
+		if err := makeNearTwinDBs(pdb, jdb, npdb, njdb, "Mal_TwinB"); err != nil {
+			c.Skip("near_twin_setup:" + trunc(err.Error(), 60))
+		} else {
+			for _, db := range []string{npdb, njdb} {
+				cases = append(cases, scanCase{db, false, 1.0, f0, "near-copy"}, scanCase{db, true, 1.0, f0, "near-copy"}, scanCase{db, true, 0.995, f0, "near-copy"}, scanCase{db, false, 0.9, f0, "near-copy"})
+			}
 		}
 		full := map[string]map[string]bool{} // db|file|thr -> alert keys
 		for _, sc := range cases {
@@ -166,8 +184,13 @@ func suiteCLI(c *Ctx) error {
 			found := map[string]bool{}
 			for _, a := range out.Alerts {
 				keys[cliAlertKey(a)] = true
-				if !sc.exact && a.Confidence < eff {
-					viol("C08", "C08/cli-alert-below-threshold", fmt.Sprintf("`%s`: alert %s/%s has confidence %v < %v", cmdline, a.MatchedFunction, a.SignatureName, a.Confidence, eff), ex)
+				// the JSON backend's exact mode uses a fixed 0.99 cut-off by design (the property scopes it so)
+				floor := eff
+				if sc.exact && wantBackend == "json" {
+					floor = 0.99
+				}
+				if a.Confidence < floor {
+					viol("C08", "C08/cli-alert-below-threshold", fmt.Sprintf("`%s`: alert %s/%s has confidence %v < %v", cmdline, a.MatchedFunction, a.SignatureName, a.Confidence, floor), ex)
 				}
 				if a.Confidence == 1.0 {
 					found[a.MatchedFunction] = true
@@ -176,6 +199,9 @@ func suiteCLI(c *Ctx) error {
 			// C05: every function of the (renamed) copy raises a confidence-1 alert
 			for _, x := range lib {
 				short := cli.ShortFunctionName(x.FunctionName)
+				if sc.tag == "near-copy" && short == "TwinB" {
+					continue // behaviourally different on purpose
+				}
 				if !found[short] {
 					viol("C05", "C05/cli-indexed-function-not-found", fmt.Sprintf("`%s`: no alert with confidence 1.0 for function %s", cmdline, short), ex)
 					break
@@ -184,7 +210,7 @@ func suiteCLI(c *Ctx) error {
 			fk := fmt.Sprintf("%s|%s|%v", sc.db, sc.file, eff)
 			if !sc.exact {
 				full[fk] = keys
-			} else if fa, ok := full[fk]; ok {
+			} else if fa, ok := full[fk]; ok && !(wantBackend == "json" && eff > 0.99) {
 				for k := range keys {
 					if !fa[k] {
 						viol("C08", "C08/cli-exact-not-in-full", fmt.Sprintf("`%s`: exact alert %s is not among the full-mode alerts at the same threshold", cmdline, k), ex)
@@ -375,6 +401,54 @@ func suiteCLI(c *Ctx) error {
 		os.RemoveAll(pdb)
 		if pi == 0 {
 			c.Sample(map[string]interface{}{"functions": nFuncs, "scan_command_lines": len(cases)})
+		}
+	}
+	return nil
+}
+
+// makeNearTwinDBs copies both databases and replaces the signature called `name` by a near twin
+// (same hashes, EntropyScore + 0.01, new ID).
+func makeNearTwinDBs(pdb, jdb, npdb, njdb, name string) error {
+	// JSON
+	raw, err := os.ReadFile(jdb)
+	if err != nil {
+		return err
+	}
+	var db detection.SignatureDatabase
+	if err := json.Unmarshal(raw, &db); err != nil {
+		return err
+	}
+	var near *detection.Signature
+	var keep []detection.Signature
+	for i := range db.Signatures {
+		if db.Signatures[i].Name == name && near == nil {
+			cp := db.Signatures[i]
+			cp.ID = "NEAR-TWIN-1"
+			cp.Name = "Near_" + name
+			cp.EntropyScore += 0.01
+			near = &cp
+			continue
+		}
+		keep = append(keep, db.Signatures[i])
+	}
+	if near == nil {
+		return fmt.Errorf("signature %s not in the JSON database", name)
+	}
+	db.Signatures = append(keep, *near)
+	out, _ := json.MarshalIndent(db, "", "  ")
+	if err := os.WriteFile(njdb, out, 0o644); err != nil {
+		return err
+	}
+	// Pebble: a fresh database with the same content
+	ps, err := pebbledb.NewPebbleScanner(npdb, pebbledb.DefaultPebbleScannerOptions())
+	if err != nil {
+		return err
+	}
+	defer ps.Close()
+	for i := range db.Signatures {
+		sg := db.Signatures[i]
+		if err := ps.AddSignature(&sg); err != nil {
+			return err
 		}
 	}
 	return nil
